@@ -36,7 +36,28 @@ def relabellings(c, rs):
             ('zero-based', list(c)),
             ('sparse', [int(sparse[x]) for x in c]),
             ('large', [big[x] for x in c]),
-            ('shuffled', [int(perm[x]) + 1 for x in c])]
+            ('shuffled', [int(perm[x]) + 1 for x in c]),
+            ('float-half', [float(perm[x]) * 1.5 - 0.25 for x in c])]
+
+
+def is_int_labels(lab):
+    return all(float(x) == int(x) for x in lab)
+
+
+def larr(lab):
+    """labels as the array handed to bct: int64, or float64 for the float-valued relabelling"""
+    return np.array(lab, dtype=np.int64) if is_int_labels(lab) else np.array(lab, dtype=float)
+
+
+def exc_name(msg):
+    """the exception's type name (finer than common.exc_kind, which folds unknown types into 'other')"""
+    return msg.split(':', 1)[0].strip()
+
+
+def tally(out, bname, st):
+    """per-function outcome counters: every real call ends in exactly one of ok / exc / timeout"""
+    key = 'outcome:%s:%s' % (bname, 'ok' if st == 'ok' else st)
+    out['dist'][key] = out['dist'].get(key, 0) + 1
 
 
 def ranks(lab):
@@ -98,6 +119,7 @@ def variants():
         V.append(('diversity_coef_sign/' + kind, 'diversity_coef_sign', kind, {}, 'diversity', ''))
     for kind in ('su', 'wu', 'sq'):
         V.append(('gateway_coef_sign/' + kind, 'gateway_coef_sign', kind, {}, 'gateway', ''))
+    V.append(('gateway_coef_sign/wu/betweenness', 'gateway_coef_sign', 'wu', {'centrality_type': 'betweenness'}, None, ''))
     for kind, g in (('wu', Fr(1)), ('bu', Fr(1, 2)), ('wu', Fr(2))):
         V.append(('modularity_und/%s/%s' % (kind, g), 'modularity_und', kind, {'gamma': g}, 'q_und', 'gamma=' + rat_str(g)))
     for g in (Fr(1), Fr(3, 4)):
@@ -115,7 +137,7 @@ def canon(st, out, bname):
     if st == 'timeout':
         return ('timeout',)
     if st == 'exc':
-        return ('exc', exc_kind(out))
+        return ('exc', exc_name(out))
     if bname in ('participation_coef', 'module_degree_zscore'):
         return ('val', [np.asarray(out, dtype=float).ravel().tolist()])
     if bname in ('participation_coef_sign', 'diversity_coef_sign', 'gateway_coef_sign'):
@@ -316,7 +338,7 @@ def run_consumers(case):
         pykw = {a: (float(b) if isinstance(b, Fr) else b) for a, b in kw.items()}
         res = {}
         for name, lab in case['relabs']:
-            A0 = A.copy(); la = np.array(lab, dtype=np.int64); la0 = la.copy()
+            A0 = A.copy(); la = larr(lab); la0 = la.copy()
             if bname in ('modularity_und', 'modularity_dir'):
                 st, o = call(f, A, pykw['gamma'], la, t=5)
             elif bname == 'modularity_und_sign':
@@ -325,10 +347,11 @@ def run_consumers(case):
                 st, o = call(f, A, la, t=5, **pykw)
             res[name] = canon(st, o, bname)
             out['evals'] += 1
+            tally(out, bname, st)
             out['dist']['call:' + bname] = out['dist'].get('call:' + bname, 0) + 1
             if not np.array_equal(la, la0):
                 out['viol'].append((bname, 'labels-modified', {'n': n, 'W': rmat_str(W), 'labels': lab, 'variant': vid}, {}))
-            if case['model']:
+            if case['model'] and op is not None and is_int_labels(lab):
                 out['lean'].append(('%s n=%d W=%s c=%s %s' % (op, n, rmat_str(W), ints_str(lab), extra), bname, vid, name, lab, res[name], kind))
         base = res['identity']
         if base[0] == 'timeout':
@@ -337,6 +360,7 @@ def run_consumers(case):
         # predicate 1: the result does not depend on the labels
         for name, lab in case['relabs'][1:]:
             if res[name][0] == 'timeout':
+                out['dist']['timeouts_relabelled'] = out['dist'].get('timeouts_relabelled', 0) + 1
                 continue
             if not same(base, res[name]):
                 mono = ranks(lab) == ident_rank
@@ -351,7 +375,7 @@ def run_consumers(case):
             if not same(base, oracle_floats(bname, o, k), 1e-9):
                 out['viol'].append((bname, 'definition', {'n': n, 'W': rmat_str(W), 'variant': vid, 'labels': case['relabs'][0][1],
                                                           'result': base, 'expected': oracle_floats(bname, o, k)}, {}))
-        elif o is not None and base[0] == 'exc':
+        elif base[0] == 'exc' and (o is not None or base[1] != 'IndexError'):
             out['viol'].append((bname, 'raises', {'n': n, 'W': rmat_str(W), 'variant': vid, 'labels': case['relabs'][0][1], 'exception': base[1]}, {}))
         nontriv = k >= 2 and base[0] == 'val' and any(x != 0 and not math.isnan(x) for p in base[1] for x in p)
         if nontriv:
@@ -374,6 +398,11 @@ def pd_from_counts(nx, ny, nxy, n):
     return vin, mn
 
 
+def LOGS(n):
+    """the doubles log 1 .. log n as exact rationals: the `L` at which the driver evaluates the model's `pdWith`"""
+    return ','.join(rat_str(Fr(math.log(k))) for k in range(1, n + 1))
+
+
 def counts(lx, ly):
     from collections import Counter
     return sorted(Counter(lx).values()), sorted(Counter(ly).values()), sorted(Counter(zip(lx, ly)).values())
@@ -390,11 +419,12 @@ def run_pd(case):
     lx, ly = case['rx'][0][1], case['ry'][0][1]
 
     def pd(a, b):
-        st, o = call(bct.partition_distance, np.array(a, dtype=np.int64), np.array(b, dtype=np.int64), t=5)
+        st, o = call(bct.partition_distance, larr(a), larr(b), t=5)
         out['evals'] += 1
+        tally(out, 'partition_distance', st)
         if st == 'ok':
             return ('val', [[float(o[0]), float(o[1])]])
-        return ('exc', exc_kind(o)) if st == 'exc' else ('timeout',)
+        return ('exc', exc_name(o)) if st == 'exc' else ('timeout',)
     base = pd(lx, ly)
     det = {'n': n, 'cx': lx, 'cy': ly, 'result': base}
     if base[0] == 'timeout':
@@ -409,12 +439,15 @@ def run_pd(case):
     for i in range(1, R):
         (na, a), (nb, b) = case['rx'][i], case['ry'][(i * 3 + 1) % R]
         r = pd(a, b)
+        if r[0] == 'timeout':
+            out['dist']['timeouts_relabelled'] = out['dist'].get('timeouts_relabelled', 0) + 1
+            continue
         if not same(base, r):
             out['viol'].append(('partition_distance', 'label-invariance', dict(det, cx_relabelled=a, cy_relabelled=b, result_relabelled=r), cond))
-        if case['model']:
-            out['lean'].append(('pdist n=%d cx=%s cy=%s' % (n, ints_str(a), ints_str(b)), 'partition_distance', 'pdist', na + '/' + nb, (a, b), r, None))
+        if case['model'] and is_int_labels(a) and is_int_labels(b):
+            out['lean'].append(('pdist n=%d cx=%s cy=%s logs=%s' % (n, ints_str(a), ints_str(b), LOGS(n)), 'partition_distance', 'pdist', na + '/' + nb, (a, b), r, None))
     if case['model']:
-        out['lean'].append(('pdist n=%d cx=%s cy=%s' % (n, ints_str(lx), ints_str(ly)), 'partition_distance', 'pdist', 'identity', (lx, ly), base, None))
+        out['lean'].append(('pdist n=%d cx=%s cy=%s logs=%s' % (n, ints_str(lx), ints_str(ly), LOGS(n)), 'partition_distance', 'pdist', 'identity', (lx, ly), base, None))
     zero_one = (not math.isnan(vin)) and abs(vin) <= 1e-12 and (not math.isnan(mn)) and abs(mn - 1) <= 1e-12
     if eq != zero_one:
         out['viol'].append(('partition_distance', 'zero-iff-equal', dict(det, same_partition=eq), cond))
@@ -440,7 +473,7 @@ def run_lists(case):
     out = {'viol': [], 'lean': [], 'evals': 0, 'keys': [], 'dist': {}, 'sample': None}
     truth = blocks_set(modules_of(c))
     for name, lab in case['relabs']:
-        st, ls = call(bct.ci2ls, np.array(lab, dtype=np.int64), t=5); out['evals'] += 1
+        st, ls = call(bct.ci2ls, larr(lab), t=5); out['evals'] += 1; tally(out, 'ci2ls', st)
         det = {'n': n, 'labels': lab, 'relabelling': name}
         if st != 'ok':
             out['viol'].append(('ci2ls', 'raises', dict(det, exception=str(ls)), {})); continue
@@ -448,9 +481,10 @@ def run_lists(case):
         if blocks_set(lsl) != truth:
             out['viol'].append(('ci2ls', 'blocks-are-the-modules', dict(det, ls=lsl), {}))
         exp_order = [sorted(b) for b in sorted(modules_of(lab), key=lambda b: lab[b[0]])]
-        out['lean'].append(('ci2ls n=%d c=%s' % (n, ints_str(lab)), 'ci2ls', 'ci2ls', name, lab, ('val', lsl), exp_order))
+        if is_int_labels(lab):
+            out['lean'].append(('ci2ls n=%d c=%s' % (n, ints_str(lab)), 'ci2ls', 'ci2ls', name, lab, ('val', lsl), exp_order))
         for z in (False, True):
-            st2, ci = call(bct.ls2ci, lsl, z, t=5); out['evals'] += 1
+            st2, ci = call(bct.ls2ci, lsl, z, t=5); out['evals'] += 1; tally(out, 'ls2ci', st2)
             if st2 != 'ok':
                 out['viol'].append(('ls2ci', 'raises', dict(det, ls=lsl, exception=str(ci)), {})); continue
             ci = [int(v) for v in ci]
@@ -465,12 +499,12 @@ def run_lists(case):
         rs.shuffle(bl)
         bl = [[int(v) for v in rs.permutation(b)] for b in bl]
         for z in (False, True):
-            st, ci = call(bct.ls2ci, bl, z, t=5); out['evals'] += 1
+            st, ci = call(bct.ls2ci, bl, z, t=5); out['evals'] += 1; tally(out, 'ls2ci', st)
             if st != 'ok':
                 out['viol'].append(('ls2ci', 'raises', {'ls': bl, 'exception': str(ci)}, {})); continue
             ci = [int(v) for v in ci]
             out['lean'].append(('ls2ci n=%d ls=%s z=%d' % (n, '|'.join(ints_str(b) for b in bl), 0 if z else 1), 'ls2ci', 'ls2ci', 'blocks', bl, ('val', ci), None))
-            st, ls2 = call(bct.ci2ls, np.array(ci), t=5); out['evals'] += 1
+            st, ls2 = call(bct.ci2ls, np.array(ci), t=5); out['evals'] += 1; tally(out, 'ci2ls', st)
             if st != 'ok' or [[int(v) for v in b] for b in ls2] != [sorted(b) for b in bl]:
                 out['viol'].append(('ci2ls', 'inverse-of-ls2ci', {'ls': bl, 'ci': ci, 'back': str(ls2)}, {}))
     if max(c) > 0:
@@ -490,10 +524,10 @@ def run_agreement(case):
     res = {}
     for name, cols in (('identity', case['cols']), ('relabelled', case['cols2'])):
         ci = np.array(cols, dtype=np.int64).T
-        st, D = call(bct.agreement, ci, t=5); out['evals'] += 1
+        st, D = call(bct.agreement, ci, t=5); out['evals'] += 1; tally(out, 'agreement', st)
         det = {'n': n, 'ci_columns': cols}
         if st == 'exc':
-            out['viol'].append(('agreement', 'raises', dict(det, exception=D), {'exception': exc_kind(D)}))
+            out['viol'].append(('agreement', 'raises', dict(det, exception=D), {'exception': exc_name(D)}))
             res[name] = None
         elif st == 'ok':
             res[name] = np.asarray(D).astype(float).tolist()
@@ -524,6 +558,17 @@ def compare_model(ck, items, outs):
                     bad = 'model counts %s differ from the contingency table %s' % ((nx, ny, nxy), ex)
                 elif pyv[0] == 'val' and not same(pyv, ('val', [list(pd_from_counts(nx, ny, nxy, n))])):
                     bad = 'VIn/MIn from the model table %s vs bct %s' % (pd_from_counts(nx, ny, nxy, n), pyv)
+                elif 'vin' not in d or 'min' not in d:
+                    bad = 'model did not evaluate pdWith on its table: %s' % o[:200]
+                else:
+                    # the model's own formula (pdWith, proved equal to VIn/MIn over the reals by pd_of_table), evaluated
+                    # in exact rationals at the double logarithms, on the model's own table
+                    mv = ('val', [[float(Fr(d['vin'])), float(Fr(d['min']))]])
+                    ck.count('pdWith_evaluations')
+                    if pyv[0] == 'val' and not same(pyv, mv):
+                        bad = 'model pdWith(table) = %s vs bct %s' % (mv, pyv)
+                    elif not same(mv, ('val', [list(pd_from_counts(nx, ny, nxy, n))])):
+                        bad = 'model pdWith(table) = %s vs the Python formula on the same table %s' % (mv, pd_from_counts(nx, ny, nxy, n))
             elif bname == 'ci2ls':
                 got = [[int(t) for t in b.split(',')] for b in kv(o)['ls'].split('|')]
                 if got != pyv[1] or got != aux:
@@ -546,6 +591,7 @@ def compare_model(ck, items, outs):
                 n = len(lab)
                 mv, exact = model_value(bname, o, n)
                 if pyv[0] == 'timeout':
+                    ck.count('model_lines_skipped_timeout')
                     continue
                 if not same(mv, pyv, 1e-9):
                     bad = 'model %s bct %s' % (mv, pyv)
@@ -573,21 +619,24 @@ def parse_W_from_line(line):
 aux_W = [parse_W_from_line]
 VKW = {v[0]: v[3] for v in variants()}
 
+ROUTINES = ['participation_coef', 'participation_coef_sign', 'module_degree_zscore', 'diversity_coef_sign', 'gateway_coef_sign',
+            'modularity_und', 'modularity_dir', 'modularity_und_sign', 'partition_distance', 'ci2ls', 'ls2ci', 'agreement']
+
 MALFORMED = ['pcoef n=3 W=1,2 c=1,2,3 deg=undirected', 'pcoef n=2 W=0,1,1,0 c=1,2 deg=sideways', 'frobnicate n=2 c=1,2',
              'relabel n=3 c=1,2', 'q_und n=2 W=0,1,1,0 c=1,2 gamma=1/0', 'zscore n=2 W=0,1,1,0 c=1,2 flag=7',
-             'pdist n=2 cx=1,2 cy=1', 'q_sign n=2 W=0,1,1,0 c=1,2 qtype=foo', 'ls2ci n=2 ls=0,1 z=5', 'relabel c=1,2']
+             'pdist n=2 cx=1,2 cy=1', 'pdist n=2 cx=1,2 cy=1,1 logs=0', 'pdist n=2 cx=1,2 cy=1,1 logs=0,0', 'pdist n=2 cx=1,2 cy=1,1 logs=0,x', 'q_sign n=2 W=0,1,1,0 c=1,2 qtype=foo', 'ls2ci n=2 ls=0,1 z=5', 'relabel c=1,2']
 
 
 def main():
     ck = Check(PID)
     ck.cov['rule'] = ('cases = (function variant, matrix, set partition, relabelling): every set partition of n<=6 nodes (restricted growth strings; '
-                      'quick tier: all for n<=4 and a seeded slice of n=5,6) x 7 injective relabellings (identity, reversal, +100, zero-based, sparse '
-                      'incl. negative, ~1e12, shuffled) x matrices binary/weighted/directed/signed/dyadic x 28 variants of the nine consumers; '
+                      'quick tier: all for n<=4 and a seeded slice of n=5,6) x 8 injective relabellings (identity, reversal, +100, zero-based, sparse '
+                      'incl. negative, ~1e12, shuffled, float-valued [Python predicates only]) x matrices binary/weighted/directed/signed/dyadic x 29 variants of the nine consumers; '
                       'partition_distance on (all / sampled) ordered pairs of partitions incl. equal pairs; ci2ls/ls2ci round trips; agreement columns. '
                       'non-trivial = distinct (variant, matrix, partition) with >=2 modules whose real result has a nonzero finite entry; for '
                       'partition_distance distinct unequal pairs not both single-module')
-    ck.assumptions += ['labels are integers (int64); float-valued labels are exercised only through the Python predicates of order-preserving maps',
-                       'centrality_type="degree" for gateway_coef_sign (the betweenness variant is outside the model)',
+    ck.assumptions += ['the Lean model takes integer labels; the float-valued relabelling and gateway_coef_sign(centrality_type="betweenness") are judged by the Python predicates only',
+                       'watchdog timeouts and exceptions are bounded per routine (liveness break), not merely counted',
                        'matrices have an empty diagonal; exact comparisons use integer or dyadic weights',
                        'entropy-valued outputs (diversity_coef_sign, partition_distance) are compared at 1e-12 after recomputing log in Python from the model\'s exact rational ingredients']
     ck.trusted = TRUSTED_DEFAULT + ['Python float log/sqrt applied to the model\'s exact ingredients for z-score, diversity and partition_distance']
@@ -652,6 +701,25 @@ def main():
         for func, pred, det, cond in r['viol']:
             ck.violation(func, pred, det, cond)
         items += r['lean']
+    # ---- liveness bound: a watchdog timeout or an exception is never a pass by itself.  Every routine must return normally
+    # on some call, time out on at most max(2, 1 %) of its calls, and raise only where a predicate judged it (gateway's known
+    # IndexError must stay the minority outcome).  `agreement` is exempt from "returns normally" only while D18 is listed.
+    d18_open = any(k.get('id') == 'C14-D18-agreement-typeerror' for k in ck.known.get('open', []))
+    if d18_open:
+        ck.never_ok_exempt = {'agreement'}      # common.Check's own never-returns-normally rule: exempt only while D18 is listed
+    for fn in ROUTINES:
+        okc, exc, to = (ck.dist.get('outcome:%s:%s' % (fn, o), 0) for o in ('ok', 'exc', 'timeout'))
+        tot = okc + exc + to
+        if tot == 0:
+            if not ck.replay:
+                ck.breaks.append({'kind': 'liveness', 'function': fn, 'what': 'routine was never called by this run'})
+            continue
+        if okc == 0 and not (fn == 'agreement' and d18_open):
+            ck.breaks.append({'kind': 'liveness', 'function': fn, 'what': 'no call returned normally', 'ok': okc, 'exceptions': exc, 'timeouts': to})
+        if to > max(2, tot // 100):
+            ck.breaks.append({'kind': 'liveness', 'function': fn, 'what': 'too many watchdog timeouts', 'ok': okc, 'exceptions': exc, 'timeouts': to})
+        if fn == 'gateway_coef_sign' and exc > okc:
+            ck.breaks.append({'kind': 'liveness', 'function': fn, 'what': 'raises on most calls', 'ok': okc, 'exceptions': exc, 'timeouts': to})
     # ---- D16 witness replayed on the real code on every run (Props/C14.lean proves the model's non-invariance on the same input)
     bct = import_bct()
     Ww = np.array([[0, 1, 2, 0], [1, 0, 0, 3], [2, 0, 0, 1], [0, 3, 1, 0.]])
